@@ -87,6 +87,7 @@ class Job:
         extra_instrument=(),
         split=False,
         rest_solvers=None,
+        rest_chunk=None,
     ):
         self.name = name
         self.sources = list(sources)
@@ -110,6 +111,7 @@ class Job:
         self.object_bits = object_bits
         self.extra_instrument = list(extra_instrument)
         self.split = split
+        self.rest_chunk = rest_chunk
         self.rest_solvers = list(rest_solvers) if rest_solvers else None  # portfolio for the mass of frame / pointer obligations in split mode
 
 
@@ -253,7 +255,7 @@ class RestGroup(list):
     """marker: the group of frame / pointer / bounds obligations"""
 
 
-def split_groups(props, mode=True):
+def split_groups(props, mode=True, rest_chunk=None):
     """Each contract-level obligation gets its own solver run; the mass of frame /
     pointer / bounds obligations shares one.  mode "cut": additionally the cut-point
     assertions (description "compress: ...") get one run per source line (= per round)."""
@@ -279,7 +281,11 @@ def split_groups(props, mode=True):
             rest.append(name)
     groups = hard + list(bylines.values())
     if rest:
-        groups.append(RestGroup(rest))
+        if rest_chunk:  # a single query over all frame / pointer obligations can be much harder than its parts
+            for k in range(0, len(rest), rest_chunk):
+                groups.append(RestGroup(rest[k:k + rest_chunk]))
+        else:
+            groups.append(RestGroup(rest))
     return groups
 
 
